@@ -123,8 +123,15 @@ def check_calendar(case):
     import json
     with contextlib.redirect_stdout(io.StringIO()):
         m = DailyModel.from_json(json.dumps(doc, default=lambda o: getattr(o, "value", str(o))))
-    idx = pd.date_range("2023-01-01", "2024-12-31", freq="D", tz="UTC")
+    tz = case.get("tz", "UTC")
+    m.baseline_timezone = __import__("zoneinfo").ZoneInfo(tz) if tz != "UTC" else m.baseline_timezone
+    idx = pd.date_range("2023-01-01", "2024-12-31", freq="D", tz=tz)
     df = pd.DataFrame({"temperature": 60.0}, index=idx)
+    if case.get("other_model_built"):
+        # ... and, before this model predicts, other models are built in the same process with OTHER settings (nothing may be shared between them)
+        with contextlib.redirect_stdout(io.StringIO()):
+            DailyModel()
+            DailyModel(settings={"weekday_weekend": {d: ("weekend" if d in ("monday", "tuesday") else "weekday") for d in DAYS}})
     res = m._predict(df)
     season_of = {int(k): v for k, v in (SEASON_MAPS[case["season_map"]] or {"1": "winter", "2": "winter", "3": "shoulder", "4": "shoulder",
                                                                               "5": "shoulder", "6": "summer", "7": "summer", "8": "summer",
@@ -232,6 +239,10 @@ def run(tier="quick", seed=0):
                 if tier == "quick" and (ci % 6 != 0) and not (wm == "friday_weekend" and ci % 3 == 0):
                     continue
                 case = {"kind": "calendar", "split": c, "season_map": sm, "week_map": wm}
+                if ci % 2:
+                    # local midnight east / west of UTC (the date on the UTC clock is the day before / the same day), and a process history
+                    case["tz"] = ["Europe/Berlin", "Australia/Sydney", "America/Chicago"][(ci // 2) % 3]
+                    case["other_model_built"] = True
                 try:
                     r = replay(case)
                 except Exception as ex:  # noqa
